@@ -11,6 +11,7 @@ import (
 	"runtime/debug"
 	"sort"
 	"strconv"
+	"strings"
 	"time"
 )
 
@@ -56,15 +57,33 @@ func main() {
 	if s := os.Getenv("VERIF_SEED"); s != "" {
 		seed, _ = strconv.Atoi(s)
 	}
-	pc, ok := registry[*prop]
-	if !ok {
-		fmt.Printf("unknown property %q\n", *prop)
-		os.Exit(2)
+	var pcs []*propCheck
+	if *prop == "all" {
+		var ids []string
+		for id := range registry {
+			ids = append(ids, id)
+		}
+		sort.Strings(ids)
+		for _, id := range ids {
+			pcs = append(pcs, registry[id])
+		}
+	} else {
+		for _, id := range strings.Split(*prop, ",") {
+			pc, ok := registry[id]
+			if !ok {
+				fmt.Printf("unknown property %q\n", id)
+				os.Exit(2)
+			}
+			pcs = append(pcs, pc)
+		}
 	}
 	started := time.Now()
-	r := newReport(pc.id)
-	if pc.init != nil {
-		pc.init(r)
+	reports := make([]*Report, len(pcs))
+	for i, pc := range pcs {
+		reports[i] = newReport(pc.id)
+		if pc.init != nil {
+			pc.init(reports[i])
+		}
 	}
 	type cfg struct{ goos, goarch string }
 	cfgs := []cfg{{"", ""}}
@@ -73,40 +92,57 @@ func main() {
 	}
 	var names []string
 	var ctxs []*Ctx
-	code := 0
-	func() {
-		defer func() {
-			if e := recover(); e != nil {
-				r.configActive = ""
-				r.undecided("R0", "analyser-panic", "-", fmt.Sprintf("analyser panicked: %v\n%s", e, debug.Stack()))
-			}
-		}()
-		for _, cf := range cfgs {
-			name := "linux/amd64"
-			if cf.goos != "" {
-				name = cf.goos + "/" + cf.goarch
-			}
-			names = append(names, name)
-			c, err := loadRepo(*repo, *tier, cf.goos, cf.goarch)
+	// one load per configuration, shared by all requested properties (several
+	// properties in one process is what the mutant matrix uses)
+	for _, cf := range cfgs {
+		name := "linux/amd64"
+		if cf.goos != "" {
+			name = cf.goos + "/" + cf.goarch
+		}
+		names = append(names, name)
+		c, err := loadRepo(*repo, *tier, cf.goos, cf.goarch)
+		for i, pc := range pcs {
+			r := reports[i]
+			r.configActive = name
 			if err != nil {
-				r.configActive = name
 				r.undecided("R0", "load:"+name, "-", "cannot load/type-check the tree: "+err.Error())
 				continue
 			}
-			r.configActive = name
-			pc.run(c, r)
+			func() {
+				defer func() {
+					if e := recover(); e != nil {
+						r.undecided("R0", "analyser-panic", "-", fmt.Sprintf("analyser panicked: %v\n%s", e, debug.Stack()))
+					}
+				}()
+				pc.run(c, r)
+			}()
+		}
+		if err == nil {
 			ctxs = append(ctxs, c)
 		}
+	}
+	code := 0
+	for i, pc := range pcs {
+		r := reports[i]
 		r.configActive = ""
 		if pc.post != nil {
-			pc.post(ctxs, r, *tier)
+			func() {
+				defer func() {
+					if e := recover(); e != nil {
+						r.undecided("R0", "analyser-panic", "-", fmt.Sprintf("analyser panicked: %v\n%s", e, debug.Stack()))
+					}
+				}()
+				pc.post(ctxs, r, *tier)
+			}()
 		}
-	}()
-	extra := map[string]interface{}{}
-	if *tier == "thorough" && !*noSelf {
-		selfValidate(pc.id, *repo, *verif, extra)
+		extra := map[string]interface{}{}
+		if *tier == "thorough" && !*noSelf {
+			selfValidate(pc.id, *repo, *verif, extra)
+		}
+		if rc := r.finish(*verif, *tier, seed, names, started, extra); rc > code {
+			code = rc
+		}
 	}
-	code = r.finish(*verif, *tier, seed, names, started, extra)
 	os.Exit(code)
 }
 
